@@ -26,6 +26,64 @@ def sweep(tier, seed=0):
     cases, fails = 0, []
     budget = 40 if tier == "quick" else 900
     with dask.config.set(scheduler="sync"):
+        # (a) 2-D, a different boundary per axis (two different constants, constants mixed with modes): the reference pads
+        #     the whole array axis by axis (axis 0 first), so the corner cells hold the LAST axis's fill
+        modes = {"reflect": "symmetric", "periodic": "wrap", "nearest": "edge"}
+
+        def pad_axis(p, ax, w, bnd):
+            pw = [(0, 0)] * p.ndim
+            pw[ax] = (w, w)
+            return np.pad(p, pw, mode=modes[bnd]) if bnd in modes else np.pad(p, pw, mode="constant", constant_values=bnd)
+
+        for shape, ch in [((6, 5), ((2, 2, 2), (3, 2))), ((9, 11), ((2, 2, 2, 3), (6, 5))), ((4, 4), ((4,), (4,)))]:
+            x = np.arange(1, shape[0] * shape[1] + 1).reshape(shape)
+            for depth in [(1, 1), (2, 1), (1, 2)]:
+                for bnd in [(5, 7), (0, 100), (7, "reflect"), ("periodic", 3), ("nearest", "reflect"), {0: 5, 1: 7}, {1: 9, 0: "periodic"}]:
+                    cases += 1
+                    bb = bnd if isinstance(bnd, dict) else dict(enumerate(bnd))
+
+                    def full(b, depth=depth):
+                        out = np.zeros_like(b)
+                        for i in range(-depth[0], depth[0] + 1):
+                            for j in range(-depth[1], depth[1] + 1):
+                                out = out + np.roll(np.roll(b, i, 0), j, 1)
+                        return out
+
+                    try:
+                        got = da.from_array(x, chunks=ch).map_overlap(full, depth=depth, boundary=bnd, dtype=x.dtype).compute()
+                        p = pad_axis(pad_axis(x, 0, depth[0], bb[0]), 1, depth[1], bb[1])
+                        want = full(p)[depth[0]:-depth[0], depth[1]:-depth[1]]
+                        msg = None if got.shape == want.shape and np.array_equal(got, want) else f"differs from the padded whole-array stencil at {np.argwhere(got != want)[:3].tolist() if got.shape == want.shape else got.shape}"
+                    except Exception as e:  # noqa
+                        msg = f"{type(e).__name__}: {e}"
+                    if msg and len(fails) < 3:
+                        fails.append(rtc.Failure("map_overlap", {"shape": shape, "chunks": ch, "depth": depth, "boundary": bnd}, "ensures", "C26-map_overlap-equals-padded-stencil", msg))
+        # (b) several arrays of the same rank with a depth (and boundary) per array: every array is padded with its own
+        #     depth, the result is trimmed with the depth of the FIRST array of maximal rank
+        rng = np.random.default_rng(seed)
+        for n, ch in [(12, (4, 4, 4)), (17, (5, 3, 6, 3)), (9, (9,))]:
+            xn, yn = rng.integers(0, 100, n), rng.integers(0, 100, n)
+            for (dx, dy) in [(1, 2), (2, 1), (1, 3)]:
+                for bnd in ["reflect", "periodic", "nearest"]:
+                    cases += 1
+                    k = dy - dx
+
+                    def two(xb, yb, dx=dx, dy=dy):
+                        # result has the shape of xb; uses y at offsets -min(dx,dy)..+min(dx,dy) around each cell
+                        m = min(dx, dy)
+                        off = dy - dx
+                        n_ = xb.shape[0]
+                        yy = yb[off:off + n_] if off >= 0 else np.concatenate([np.zeros(-off, yb.dtype), yb, np.zeros(-off, yb.dtype)])
+                        return xb + np.roll(yy, m) + np.roll(yy, -m)
+
+                    try:
+                        got = da.map_overlap(two, da.from_array(xn, chunks=(ch,)), da.from_array(yn, chunks=(ch,)), depth=[dx, dy], boundary=bnd, dtype=xn.dtype).compute()
+                        want = two(np.pad(xn, dx, mode=modes[bnd]), np.pad(yn, dy, mode=modes[bnd]))[dx:-dx]
+                        msg = None if got.shape == want.shape and np.array_equal(got, want) else f"result (shape {got.shape}) differs from pad-each-array / apply / trim-by-the-first-depth (shape {want.shape})"
+                    except Exception as e:  # noqa
+                        msg = f"{type(e).__name__}: {e}"
+                    if msg and len(fails) < 3:
+                        fails.append(rtc.Failure("map_overlap", {"n": n, "chunks": ch, "depth": [dx, dy], "boundary": bnd, "arrays": 2}, "ensures", "C26-map_overlap-equals-padded-stencil", msg))
         # 1-D and 2-D: overlap then trim is the identity, for every chunking and depth (int / asymmetric tuple)
         for n in range(1, 6 if tier == "quick" else 8):
             x = np.arange(n)
@@ -125,6 +183,6 @@ def sweep(tier, seed=0):
             if time.time() - t0 > budget or len(fails) >= 3:
                 break
     return {"function": "dask/array/overlap.py: overlap_internal/trim_internal/map_overlap (real code, NumPy values; bounded only)", "bounded": True,
-            "bound": {"1-D lengths": "1..5 (quick) / 1..7, all chunkings, depths 0,1,2,(1,0),(0,2),(2,1)", "1-D asymmetric": "lengths 2..7 (quick) / 2..9, all chunkings (chunks smaller than the depth included), depths (1,2),(2,1),(1,3),(3,1),(2,3),(0,2),(2,0), boundary none", "2-D": "fixed shapes x 3 chunkings x 6 depth specs (incl. dicts in both key orders) x 5 boundaries", "time_budget_s": budget},
+            "bound": {"1-D lengths": "1..5 (quick) / 1..7, all chunkings, depths 0,1,2,(1,0),(0,2),(2,1)", "1-D asymmetric": "lengths 2..7 (quick) / 2..9, all chunkings (chunks smaller than the depth included), depths (1,2),(2,1),(1,3),(3,1),(2,3),(0,2),(2,0), boundary none", "2-D": "fixed shapes x 3 chunkings x 6 depth specs (incl. dicts in both key orders) x 5 boundaries", "2-D per-axis boundary": "3 shapes x 3 depths x 7 per-axis boundary specs (two constants, constant + mode, dicts)", "two arrays": "3 lengths x depth pairs (1,2),(2,1),(1,3) x 3 modes", "time_budget_s": budget},
             "cases": cases, "distinct_nontrivial": cases, "failures_found": len(fails), "wall_s": round(time.time() - t0, 2),
             "samples": [{"native_case": {"shape": [6, 10], "chunks": [[6], [10]], "depth": {"1": 2, "0": 1}, "boundary": "reflect"}}], "failures": fails}
